@@ -71,7 +71,15 @@ pub const UTYPES: &[&str] = &[
     "yes", "true", "level1", "level2", "level3", "level4", "identic", "identical", "primary", "shifted", "noignore", "blanked", "space", "punct",
     "symbol", "currency", "digit", "strict", "normal", "loose", "breakall", "keepall", "phrase", "metric", "ussystem", "uksystem", "imperial",
     "celsius", "fahrenhe", "kelvin", "uszzzz", "gbzzzz", "usca", "gbsct", "gbeng", "none", "utc", "gmt", "uslax", "usnyc", "jeruslm", "unk",
-    "codepts", "variant",
+    "codepts", "variant", "amete", "alem", "islamicc", "compat", "hant", "hans", "private",
+];
+
+/// Registry -u- types that consist of several subtags (CLDR bcp47 data), and legacy / deprecated spellings that alias to
+/// them. The G-lex phase puts every contiguous sub-sequence of their words (the value cut short, or entered from the
+/// middle) under every registry key.
+pub const UTYPE_SEQS: &[&str] = &[
+    "islamic-civil", "islamic-umalqura", "islamic-tbla", "islamic-rgsa", "ethiopic-amete-alem", "gregory-iso8601", "true-false", "phonebk-trad",
+    "space-punct-symbol-currency", "latn-digit", "han-kana-latn", "reformed-search-standard",
 ];
 
 /// -t- field keys of the registry.
@@ -106,6 +114,12 @@ pub const IDS: &[&str] = &[
     "de-Qaaa", "sr-Latn-QM", "sr-Qaaa-RS", "en-US-u-islamcal", "zh-CN-a-myext-x-private", "en-a-myext-b-another", "hak", "yue-HK", "cmn-Hans-CN",
     "zh-cmn-Hans-CN", "zh-yue-HK", "sl-IT-nedis", "de-CH-1996", "es-005", "aaa", "en-Latn-GB-boont-r-extended-sequence-x-private",
     "und-Zzzz", "und-ZZ", "und-001", "und-Hant", "und-Arab-PK", "ii", "i", "tlh", "jbo-Latn-001", "eo-001", "ia-001", "vo-001", "yi-001",
+    // platform legacy identifiers (Mozilla, Java, Windows, POSIX, ICU, Apple): most are ill-formed and must simply be rejected
+    "ja-JP-mac", "ja_JP_JP", "ja-JP-JP", "th-TH-TH", "th_TH_TH", "nn-NO-NY", "zh-CHS", "zh-CHT", "zh-Hans-CN-CHS", "sr-SP", "sr-SP-Cyrl", "x-IV-mathan",
+    "qps-ploc", "qps-plocm", "es-ES_tradnl", "es-ES-tradnl", "C.UTF-8", "en_US.UTF-8", "de_DE@euro", "sr_RS@latin", "ca_ES@valencia", "uz_UZ@cyrillic",
+    "en__POSIX", "zh_TW_STROKE", "de__PHONEBOOK", "es__TRADITIONAL", "hi__DIRECT", "zh__PINYIN", "en_US_PREEURO", "de_DE_EURO", "ar_SA@calendar=islamic",
+    "en-US-x-lvariant-POSIX", "en@collation=phonebook", "nb_NO_NY", "sh-BA", "sh-CS", "iw-IL-u-ca-hebrew", "tl", "fil-PH", "mo-MD-cyrillic", "aa-saaho",
+    "en-GB-scouse", "en-scotland", "sl-nedis", "de-AT-1901", "zh-cmn", "zh-cmn-Hant", "zh-gan", "zh-wuu", "zh-yue", "ber-Tfng", "sgn-US", "sgn-GB",
 ];
 
 pub fn word_count() -> usize {
